@@ -10,7 +10,7 @@ META = dict(
                 thorough='K = 6, periods {1,2,3,26,51,52,102,104,1326}'),
     stubs=['time.monotonic_ns -> non-decreasing symbolic instants of a virtual clock', 'threading.Event.wait(x) -> records the requested duration, advances the virtual clock by x plus a symbolic oversleep, returns True after K waits',
            'threading.Thread (worker body called directly)', 'fake socket', 'logging', 'dt*1e-9 kept as exact (numerator, factor) pair'],
-    outside=['real-time behaviour of the OS timer', 'float rounding of dt*1e-9 (<= 1 ulp)', 'SCHED_RR priority handling', 'more than K iterations (the loop body is uniform; its only cross-iteration state is the local t_next)'],
+    outside=['link list mutated concurrently with an iteration over it (thread interleaving inside one tick)', 'real-time behaviour of the OS timer', 'float rounding of dt*1e-9 (<= 1 ulp)', 'SCHED_RR priority handling', 'more than K iterations (the loop body is uniform; its only cross-iteration state is the local t_next)'],
     assumptions=['frame period T = int(0.004615 // 1e-9) computed by the code must lie in [4614999, 4615000] ns (float floor tolerated)'],
     explanation='events (clock reads, wait requests, indications, handler calls) are recorded; obligations for all symbolic times: handler sees (start+k) mod 2715648; IND CLOCK <fn>\\\\0 to every link iff fn mod period == 0 and before the handler; '
                 'wait request == absolute deadline - now when not late (deadline advances by T per tick, independent of handler time), and when late: re-read clock, request 0, next deadline = re-read + T (no catch-up)')
@@ -24,6 +24,8 @@ def jobs(tier, seed):
         for nl in (0, 1, 2) if p in (1, 102) else (1,):
             out.append(('worker.p=%d.links=%d' % (p, nl), 'h_worker', dict(period=p, nlinks=nl, K=K)))
     out.append(('restart', 'h_restart', {}))
+    for p in (1, 102):
+        out.append(('links-change.p=%d' % p, 'h_links_change', dict(period=p)))
     return out
 
 
@@ -142,3 +144,38 @@ def h_restart(ctx):
         gen.start()
         ctx.check('restart-from-start-frame', eq(gen.clck_src, start))
         ctx.check('running-again', gen.running is True)
+
+
+def h_links_change(ctx, period):
+    """links are attached/detached while the generator runs (what Transceiver.power_event_handler does):
+    every indication goes to exactly the links attached at that tick."""
+    T = env.load(ctx, 'gsm_shared', 'udp_link', 'app_common', 'clck_gen')
+    net, log, rnd = env.std_env(ctx, T)
+    cg = T.clck_gen
+    with env.symbolic(ctx):
+        cg.threading = env.FakeThreading
+        L = [T.udp_link.UDPLink('127.0.0.1', 5800 + i, '0.0.0.0', 5700 + i) for i in range(3)]
+        links = []
+        k0 = ctx.int('k0', 0, HYPER // period - 2)
+        gen = cg.CLCKGen(links, clck_start=k0 * period, ind_period=period)
+        links.append(L[0])
+        gen.start()
+        script = [('tick', None), ('add', 1), ('tick', None), ('add', 2), ('del', 0), ('tick', None), ('del', 2), ('del', 1), ('tick', None), ('add', 0), ('tick', None)]
+        nt = 0
+        for op, i in script:
+            if op == 'add': links.append(L[i])
+            elif op == 'del': links.remove(L[i])
+            else:
+                gen.clck_src = (k0 + nt) * period             # an indication frame (frame arithmetic is the worker harness' subject)
+                before = [len(l.sock.sent) for l in L]
+                with ctx.no_raise('tick%d:no-exception' % nt):
+                    gen.send_clck_ind()
+                for j, l in enumerate(L):
+                    attached = any(x is l for x in links)
+                    ctx.check('tick%d.link%d.%s' % (nt, j, 'gets-one' if attached else 'gets-none'), len(l.sock.sent) - before[j] == (1 if attached else 0),
+                              got=len(l.sock.sent) - before[j])
+                    if attached and len(l.sock.sent) > before[j]:
+                        nul, toks = trxc_tokens(l.sock.sent[-1][0])
+                        ctx.check('tick%d.link%d.text' % (nt, j), nul and len(toks) == 3 and toks[0] == 'IND' and toks[1] == 'CLOCK' and bool(eq(toks[2], (k0 + nt) * period) is not False))
+                        if len(toks) == 3: ctx.check('tick%d.link%d.fn' % (nt, j), eq(toks[2], (k0 + nt) * period))
+                nt += 1
